@@ -199,7 +199,17 @@ func (d *deepCopier) deepCopySlice(in, out reflect.Value) {
 	}
 
 	if (out.IsNil() || out.Pointer() == in.Pointer()) && out.CanSet() {
-		out.Set(reflect.MakeSlice(in.Type(), in.Len(), in.Cap()))
+		// a slice that is being (or has been) copied resolves to that copy,
+		// so a slice that reaches itself through its own elements (a
+		// by-value struct element holding the slice) terminates.
+		sKey := ifaceSliceKey{ptr: in.Pointer(), typ: in.Type(), len: in.Len(), cap: in.Cap()}
+		if sv, ok := d.ifaceSliceMap[sKey]; ok {
+			out.Set(sv)
+			return
+		}
+		newSlice := reflect.MakeSlice(in.Type(), in.Len(), in.Cap())
+		d.ifaceSliceMap[sKey] = newSlice
+		out.Set(newSlice)
 	}
 	// Copy the entire backing array
 	d.deepCopyArray(in.Slice(0, in.Cap()), out.Slice(0, out.Cap()))
